@@ -778,30 +778,49 @@ func mapStress(iters int, seed int64) {
 
 var ropRe = regexp.MustCompile(`main\.rop_(single|atomic|other)_([A-Za-z]+)`)
 
-// classifyRace returns the two harness entry points of a race report and whether
-// both lie inside operations the statement constrains.
-func classifyRace(r vf.RaceReport) (a, b string, constrained bool) {
+// classifyRace returns the two harness entry points of a race report, the innermost
+// hive.go functions of both stacks, and whether both stacks lie inside operations the
+// statement constrains.
+func classifyRace(r vf.RaceReport) (a, b, inner string, constrained bool) {
 	head := r.Text
 	if i := strings.Index(head, "\nGoroutine "); i >= 0 {
 		head = head[:i]
 	}
-	var names, classes []string
+	var names, classes, inners []string
 	for _, blk := range strings.Split(head, "\n\n") {
+		if !strings.Contains(blk, "hive.go") {
+			continue
+		}
+		in := ""
+		for _, l := range strings.Split(blk, "\n") {
+			if i := strings.Index(l, "github.com/iotaledger/hive.go/"); i >= 0 && strings.HasPrefix(l, "  ") && !strings.HasPrefix(l, "      ") {
+				f := l[i+len("github.com/iotaledger/hive.go/"):]
+				if j := strings.LastIndexByte(f, '('); j > 0 {
+					f = f[:j]
+				}
+				in = typeParamRe.ReplaceAllString(f, "")
+				break
+			}
+		}
+		inners = append(inners, in)
 		if m := ropRe.FindStringSubmatch(blk); m != nil {
 			names = append(names, m[2])
 			classes = append(classes, m[1])
-		} else if strings.Contains(blk, "hive.go") {
+		} else {
 			names = append(names, "?")
 			classes = append(classes, "other")
 		}
 	}
 	if len(names) < 2 {
-		return "?", "?", false
+		return "?", "?", strings.Join(inners, " <-> "), false
 	}
 	constrained = classes[0] != "other" && classes[1] != "other"
 	a, b = names[0], names[1]
+	ia, ib := inners[0], inners[1]
 	if b < a {
-		a, b = b, a
+		a, b, ia, ib = b, a, ib, ia
 	}
-	return
+	return a, b, ia + " <-> " + ib, constrained
 }
+
+var typeParamRe = regexp.MustCompile(`\[[^\]]*\]`)
